@@ -337,6 +337,78 @@ def run_cases(ctx, exe, cases, label, bs=40):
     return ok_all
 
 
+
+# ----------------------------------------------------------------------------- contended first use (monitors only)
+def gen_lazy(rng, ncases):
+    """the pool is not set up in advance: the first submit initialises it under the schedule (stop points inside
+    init_threads), other loops submit / run meanwhile.  No model counterpart: only the monitors judge these."""
+    cases = []
+    for _ in range(ncases):
+        n = rng.choice([1, 2, 2, 3, 4])
+        L = rng.choice([2, 2, 3])
+        c = [f"cfg {n} {L} lazy"]
+        first = rng.below(L)
+        c.append(f"sub {first} {rng.choice('cfs')} 0")
+        for _ in range(rng.below(4)):                 # how far the initialiser gets before the others arrive
+            c.append(f"go {first}")
+        others = [l for l in range(L) if l != first]
+        for l in others:
+            if rng.chance(3, 4):
+                c.append(f"sub {l} {rng.choice('cfs')} {rng.below(4)}")
+            if rng.chance(1, 3):
+                c.append(f"go {first}")
+        for _ in range(rng.range(4, 30)):
+            r = rng.below(10)
+            if r < 3:
+                c.append(f"go {rng.below(L)}")
+            elif r < 7:
+                c.append(f"wk {rng.below(n)} {rng.below(4)}")
+            elif r < 8:
+                c.append(f"sub {rng.below(L)} {rng.choice('cfs')} {rng.below(4)}")
+            elif r < 9:
+                c.append(f"drn {rng.below(L)}")
+            else:
+                c.append(f"can {rng.below(L)} {rng.below(3)}")
+        cases.append(c)
+    return cases
+
+
+def run_lazy(ctx, exe, cases, label):
+    for i in range(0, len(cases), 40):
+        batch = cases[i:i + 40]
+        text = "".join("\n".join(c) + "\nfin\n" for c in batch)
+        rc, iout, ierr = ctx.run(exe, text=text, timeout=300)
+        il = iout.splitlines()
+        mons = [l for l in il if l.startswith("MON")]
+        il = [l for l in il if not l.startswith("MON")]
+        pos = 0
+        for c in batch:
+            ci = il[pos:pos + len(c) + 1]
+            pos += len(c) + 1
+            ctx.count()
+            bad = None
+            if len(ci) != len(c) + 1:
+                # this is where the process stopped: attribute by running the case alone
+                rc1, out1, err1 = ctx.run(exe, text="\n".join(c) + "\nfin\n", timeout=120)
+                l1 = out1.splitlines()
+                m1 = [l for l in l1 if l.startswith("MON")]
+                if m1:
+                    bad = (mon_sig(m1[0]), m1[0])
+                elif rc1 != 0 or len(l1) != len(c) + 1:
+                    bad = ("harness-died", f"harness exit {rc1}: {(err1 or out1)[-500:]}")
+                else:
+                    ci = l1
+            if bad is None:
+                bad = monitor(int(c[0].split()[1]), c[1:], ci[:-1], ci[-1])
+            if bad:
+                ctx.violation("tpool-" + bad[0], f"C08 ({label}: first submissions contend for the pool's initialisation) monitor: {bad[1]}",
+                              {"mode": "lazy", "case": c})
+                return False
+            ctx.validated()
+            if any("oncewait" in o for o in ci):
+                ctx.nontrivial("lazy-" + hashlib.sha1("\n".join(c).encode()).hexdigest()[:12])
+    return True
+
 # ----------------------------------------------------------------------------- schedule generation
 CATS = ["wk"] * 9 + ["loop"] * 4 + ["sub"] * 3 + ["can"] * 2 + ["wake"] + ["any"]
 
@@ -580,6 +652,11 @@ def run(ctx):
                     viol = [l for l in out.splitlines() if l.startswith("VIOLATION")]
                     if viol or rc != 0:
                         ctx.violation("tpool-real-replay", f"C08 replay (real threads): {viol[:1] or rc}", obj)
+        elif obj.get("mode") == "lazy":
+            if exe:
+                rc, out, err = ctx.run(exe, text="\n".join(obj["case"]) + "\nfin\n", timeout=120)
+                print(out[-3000:], err[-1500:])
+                run_lazy(ctx, exe, [obj["case"]], "replay")
         elif exe:
             c = obj["case"]
             rc, ci, cm, mons, ierr = run_one(ctx, exe, c)
@@ -625,6 +702,9 @@ def run(ctx):
         for c in cases[:3]:
             ctx.sample(" ; ".join(c[:25]))
         ok = run_cases(ctx, exe, cases, "random")
+    # 3b. contended first use of the pool (monitors only; the model starts from an initialised pool)
+    if exe is not None and not ctx.violations:
+        run_lazy(ctx, exe, gen_lazy(rng.fork(), ctx.scale(200, 2000)), "lazy-init")
     # 4. search when a proof or the correspondence no longer checks (monitors only, enlarged budget, scheduled first)
     need_search = (ok is None or not lean_ok) and not ctx.violations
     found = False
